@@ -18,6 +18,7 @@ import (
 	"github.com/makiuchi-d/gozxing"
 	multiqr "github.com/makiuchi-d/gozxing/multi/qrcode"
 	multidet "github.com/makiuchi-d/gozxing/multi/qrcode/detector"
+	qrdecoder "github.com/makiuchi-d/gozxing/qrcode/decoder"
 	qrdetector "github.com/makiuchi-d/gozxing/qrcode/detector"
 )
 
@@ -301,6 +302,43 @@ func detrestMultiImg(r *Rng, maxDim int) c06detImg {
 			c06detNoise(r, m, r.Pick([]int{5, 50}))
 		}
 		return c06detImg{w, h, m, "multi-qr"}
+	case 8: // two to four QR symbols side by side (no overlap), some with the data area wrecked (located, not decodable)
+		k := r.Pick([]int{2, 3})
+		n := r.Range(2, 4)
+		var syms []*gozxing.BitMatrix
+		wTot, hMax := 6, 0
+		for i := 0; i < n; i++ {
+			s := c06QRSymbol(r, c06Text(r)[:1])
+			if s == nil {
+				continue
+			}
+			if r.Chance(0.5) { // wreck everything but the three finder corners and the timing rows
+				d := s.GetWidth()
+				for y := 0; y < d; y++ {
+					for x := 0; x < d; x++ {
+						corner := (x < 9 && y < 9) || (x >= d-9 && y < 9) || (x < 9 && y >= d-9)
+						if !corner && r.Chance(0.5) {
+							s.Flip(x, y)
+						}
+					}
+				}
+			}
+			syms = append(syms, s)
+			wTot += s.GetWidth()*k + 8
+			if s.GetHeight()*k > hMax {
+				hMax = s.GetHeight() * k
+			}
+		}
+		if len(syms) == 0 {
+			break
+		}
+		m := c06detNew(wTot, hMax+12)
+		x0 := 6
+		for _, s := range syms {
+			c06detPaste(m, s, k, x0, 6, 0, false)
+			x0 += s.GetWidth()*k + 8
+		}
+		return c06detImg{m.GetWidth(), m.GetHeight(), m, "multi-qr-row"}
 	case 4, 5: // a field of finder patterns of one or several module sizes (many centres, ties in the sort)
 		w, h := r.Range(30, maxDim), r.Range(30, maxDim)
 		m := c06detNew(w, h)
@@ -402,19 +440,61 @@ func detrestMultiFinder(c *Ctx, r *Rng) {
 		if it%2 == 0 || nc <= 12 {
 			c.CmpF("c06rest-multi", fmt.Sprintf("c06rest mdetectfrom %s id %s", pre, detrestFPsBits(centres)), det, detrestCmpSubseq)
 		}
-		// the whole reader: oracle only
+		// the whole reader: the result loop against Gzx.MultiSA.decodeMultiple (the located symbols and the decoder's
+		// answer for each are observed on the real detector / decoder), and the oracle
+		items := Safe(func() string {
+			rs, e := multidet.NewMultiDetector(img.bm).DetectMulti(hints)
+			if e != nil {
+				return "NONE"
+			}
+			its := make([]string, len(rs))
+			for i, x := range rs {
+				dr, e := qrdecoder.NewDecoder().Decode(cqrClone(x.GetBits()), hints)
+				if e != nil || dr == nil {
+					its[i] = "E"
+					continue
+				}
+				sg, ec, sa := "-", "0", "-"
+				if dr.GetByteSegments() != nil {
+					sg = detrestSegTok(dr.GetByteSegments())
+				}
+				if dr.GetECLevel() != "" {
+					ec = "1"
+				}
+				if dr.HasStructuredAppend() {
+					sa = fmt.Sprintf("%d,%d", dr.GetStructuredAppendSequenceNumber(), dr.GetStructuredAppendParity())
+				}
+				its[i] = fmt.Sprintf("%s;%s;%d;%s;%s;%s", hexs([]byte(dr.GetText())), hexs(dr.GetRawBytes()), len(x.GetPoints()), sg, ec, sa)
+			}
+			if len(its) == 0 {
+				return "-"
+			}
+			return strings.Join(its, "|")
+		})
 		full := SafeT(30*time.Second, func() string {
 			rs, e := multiqr.NewQRCodeMultiReader().DecodeMultiple(detrestBitmap(img.bm), hints)
 			if e != nil {
 				return c06detErr(e)
 			}
-			for _, x := range rs {
+			ss := make([]string, len(rs))
+			for i, x := range rs {
 				if x == nil {
 					return "NIL-RESULT"
 				}
+				ss[i] = detrestSAResultStr(x)
 			}
-			return fmt.Sprintf("ok %d", len(rs))
+			if len(ss) == 0 {
+				return "ok -"
+			}
+			return "ok " + strings.Join(ss, "|")
 		})
+		if items != "NONE" && items != "PANIC" {
+			c.Cmp("c06rest-multi", "c06rest mdecode "+items, full)
+		}
+		full = fmt.Sprintf("%s %d", c06detHead(full), strings.Count(full, "|")+map[bool]int{true: 1, false: 0}[strings.HasPrefix(full, "ok ") && full != "ok -"])
+		if !strings.HasPrefix(full, "ok") {
+			full = c06detHead(full)
+		}
 		okFull := strings.HasPrefix(full, "ok") || full == "ERR:notfound" || full == "ERR:checksum" || full == "ERR:format"
 		c.Oracle("c06rest-multi.DecodeMultiple", okFull, "c06rest:multi.DecodeMultiple:"+c06detHead(full),
 			fmt.Sprintf("DecodeMultiple %s th=%s", pre, th), "DecodeMultiple gave "+full)
